@@ -90,7 +90,7 @@ def run_kani_units(pid, units, tier, log, only_harness=None):
         hs = [(u, h) for (u, h) in hs if u['name'] not in anchor_bad]
         if not hs:
             continue
-        names = ['%s::%s' % (K.mod_name(u['name']), h['name']) for u, h in hs]
+        names = ['%s::%s' % (K.full_mod_path(u), h['name']) for u, h in hs]
         tmo = max(int(h.get('timeout_s', u.get('timeout_s', 900))) for u, h in hs)
         jobs = min(int(min(u.get('jobs', 12) for u, h in hs)), NCPU)
         logpath = os.path.join(logdir, 'group_%s_%s.log' % (pkg, abs(hash(key)) % 10000))
@@ -144,7 +144,7 @@ def run_kani_units(pid, units, tier, log, only_harness=None):
         if v.get('status') != 'failed':
             continue
         u, h = v['_unit'], v['_h']
-        full = '%s::%s' % (K.mod_name(u['name']), h['name'])
+        full = '%s::%s' % (K.full_mod_path(u), h['name'])
         log('[kani] %s failed: concrete playback ...' % full)
         tests = K.playback_print(wsdir, u['package'], u.get('features', []), bool(u.get('no_default_features')),
                                  u.get('kani_args', []), full, int(h.get('timeout_s', u.get('timeout_s', 900))),
